@@ -68,7 +68,7 @@ def run(ctx):
 
     # ---- R1 single batch in flight
     r = ctx.rule("R1", "a batch is started only when none is in flight and the queue is non-empty; the handle is "
-                       "cleared by an on-both stage followed by a queue re-check", 4, "B+C")
+                       "cleared by an on-both stage followed by a queue re-check", 5, "B+C")
     for f, kind, node in prog.attr_accesses(ci, "_batch_send_d", False):
         if kind != "write" or f.name == "__init__":
             continue
@@ -110,6 +110,21 @@ def run(ctx):
     clr = [n.id for n in cc.nodes if node_writes_attr(n, "_batch_send_d")]
     r.check(bool(clr) and not cc.normal_exits_from(cc.entry.id, avoid=clr), "%s#clears-on-all-paths" % cbs.qname,
             "completion stage can return without clearing _batch_send_d", where(cbs, cbs.node))
+
+    # the send stage hands the chain of the produce request on: the completion stage then runs when the request (and
+    # its response handling, retries included) has resolved, not when the send stage returns
+    cs_ = ctx.cfg(sreq)
+    sends_ = [n for n in cs_.nodes if any(call_name(c) == "send_produce_request" for c in n.calls())]
+    rets_ = [n for n in cs_.nodes if n.kind == "stmt" and isinstance(n.stmt, ast.Return) and sends_ and n.id in cs_.reach([x.id for x in sends_])]
+    bad_ = []
+    for n in rets_:
+        og_ = deferred_origins(cs_, n.id, n.stmt.value) if n.stmt.value is not None else None
+        if not og_ or not all(isinstance(e_, ast.Call) and call_name(e_) == "send_produce_request" for e_ in og_):
+            bad_.append(n)
+    r.check(bool(sends_) and bool(rets_) and not bad_, "%s#request-deferred-returned" % sreq.qname,
+            "after the produce request was made the send stage returns something else than that request's Deferred (line %s)"
+            % ", ".join(str(n.lineno) for n in bad_), where(sreq, bad_[0].stmt if bad_ else sreq.node),
+            "the in-flight handle is cleared while the request is still pending or waiting to be retried: the next batch overtakes it")
 
     # ---- R2 order kept
     r = ctx.rule("R2", "queue order is kept from the queue to the message set; each request lands in one payload", 5,
